@@ -238,14 +238,15 @@ func famClose(w *World) {
 	}
 	wrapped = append(wrapped, monitor)
 	w.tasks(wrapped...)
+	// the workload is over: no injected slowness while the relays are given their time
+	w.QuiesceStarted = true
+	w.stopLags()
 	if spy != nil {
 		sleep(maxTimeout + 30*time.Second)
 		spy.checkEnded()
 	}
 	// the history-based rules are judged once traffic has ceased: an answer still queued behind
 	// other frames on a slow link is an answer
-	w.QuiesceStarted = true
-	w.stopLags()
 	for _, l := range w.Net.Links {
 		l.Heal()
 	}
